@@ -383,7 +383,7 @@ def executes_before(func, a, b):
     return True
 
 
-def induction_vars(cx, func, loop):
+def induction_vars(cx, func, loop, allow_conjunct=False):
     """For a for/while loop: {name: (canonical entry value, step per iteration)} for every variable that the loop
     advances by a constant once per iteration (i++, --p, v += 2, v = v - 1), unconditionally in the body or in the
     increment expression; and the guard as (name, op, canonical bound) if it compares such a variable, else None."""
@@ -391,6 +391,8 @@ def induction_vars(cx, func, loop):
     ch = kids(loop)
     if loop["kind"] == "ForStmt":
         init, cond, inc, body = ch[0], ch[2], ch[3], ch[4]
+    elif loop["kind"] == "DoStmt":
+        init, cond, inc, body = None, ch[1], None, ch[0]
     else:
         init, cond, inc, body = None, ch[0], None, ch[1]
     steps = {}
@@ -432,6 +434,14 @@ def induction_vars(cx, func, loop):
         scan(body, False)
     if inc is not None and inc["kind"] != "Null":
         scan(inc, False)
+    if cond is not None and cond["kind"] != "Null":
+        # a step inside the test itself (while (n-- > 0), do ... while (--n > 0)): once per round as well
+        c1 = strip(cond, casts=True)
+        if c1["kind"] == "BinaryOperator" and c1.get("opcode") in ("<", "<=", ">", ">=", "!="):
+            for side in kids(c1):
+                s1 = strip(side, casts=True)
+                if s1["kind"] == "UnaryOperator" and s1.get("opcode") in ("++", "--"):
+                    scan(s1, False)
     out = {}
     for nm, d in steps.items():
         if d is None or counts.get(nm) != 1:
@@ -451,16 +461,36 @@ def induction_vars(cx, func, loop):
         if entry is not None:
             out[nm] = (entry, d)
     guard = None
+    conjuncts = []
     if cond is not None and cond["kind"] != "Null":
-        c0 = strip(cond, casts=True)
+        def conj(n_):
+            n0 = strip(n_, casts=True)
+            if n0["kind"] == "BinaryOperator" and n0.get("opcode") == "&&":
+                conj(kids(n0)[0])
+                conj(kids(n0)[1])
+            else:
+                conjuncts.append(n0)
+        conj(cond)
+    # with a conjunction (a search that also stops on "found") the counting conjunct bounds the rounds
+    induction_vars.last_guard_node = None
+    if len(conjuncts) > 1 and not allow_conjunct:
+        conjuncts = []          # the loop can also stop for another reason: no exact trip count
+    for c0 in conjuncts:
+        if guard is not None:
+            break
         if c0["kind"] == "BinaryOperator" and c0.get("opcode") in ("<", "<=", ">", ">=", "!="):
             a, b = strip(kids(c0)[0], casts=True), strip(kids(c0)[1], casts=True)
+            if a["kind"] == "UnaryOperator" and a.get("opcode") in ("++", "--"):
+                a = strip(kids(a)[0], casts=True)
+            if b["kind"] == "UnaryOperator" and b.get("opcode") in ("++", "--"):
+                b = strip(kids(b)[0], casts=True)
             op = c0["opcode"]
             if b["kind"] == "DeclRefExpr" and b["ref"]["name"] in out and not (a["kind"] == "DeclRefExpr" and a["ref"]["name"] in out):
                 a, b = b, a
                 op = {"<": ">", "<=": ">=", ">": "<", ">=": "<=", "!=": "!="}[op]
             if a["kind"] == "DeclRefExpr" and a["ref"]["name"] in out:
                 guard = (a["ref"]["name"], op, cx.canon(b))
+                induction_vars.last_guard_node = c0
     return out, guard
 
 
